@@ -2,8 +2,12 @@ package main
 
 import (
 	"fmt"
+	"go/ast"
+	"go/token"
+	"go/types"
 	"os"
 	"sort"
+	"strings"
 
 	"golang.org/x/tools/go/ssa"
 )
@@ -63,6 +67,10 @@ func checkC06(c *Ctx, r *Report) {
 	runEPANIC(c, r, reach, "the decode entry points")
 	runEMAKE(c, r, reach, "the decode entry points")
 	runEDIV(c, r, reach, "the decode entry points")
+	checkSquareGuard(c, r)
+	checkCodabarIndexPair(c, r)
+	// the frozen E-DROP rows of the Data Matrix decoder rest on its version table: decide that here as well
+	checkDMTables(c, r)
 }
 
 func runEXOR(c *Ctx, r *Report, nf *nilFlow, roots []*ssa.Function, min int) {
@@ -159,4 +167,208 @@ func runENIL(c *Ctx, r *Report, nf *nilFlow, within map[*ssa.Function]bool, min 
 			r.Fail("E-NIL", key, c.pos(uses[0].Pos()), "violation", fmt.Sprintf("the result of %s (obtained at %s) may be nil and is used here without a dominating nil test", it.src, c.pos(it.v.Pos())))
 		}
 	}
+}
+
+// M-SQUARE: the QR module-matrix parser uses one dimension for both axes, so it must insist on a square matrix
+func checkSquareGuard(c *Ctx, r *Report) {
+	r.Rule("M-SQUARE", "qrcode/decoder.NewBitMatrixParser rejects, before anything is read, every matrix that is not a square of side 21 + 4k: all later index arithmetic (format/version positions, unmasking, the zig-zag) uses the height for both axes; the guard is folded over a grid of widths and heights", 1)
+	fd, p := c.funcDeclOf("qrcode/decoder", "NewBitMatrixParser")
+	key := "qrcode/decoder.NewBitMatrixParser"
+	if fd == nil {
+		r.AnchorLost("M-SQUARE", key, "function not found")
+		return
+	}
+	r.Analysed(key)
+	bad := ""
+	for _, h := range []int64{0, 8, 20, 21, 22, 23, 24, 25, 49, 177} {
+		for _, w := range []int64{0, 8, 20, 21, 25, 33, 48, 49, 50, 177} {
+			hk := &rpf{callHook: func(rr *rpf, call *ast.CallExpr, callee types.Object) (*Val, bool) {
+				if fn, ok := callee.(*types.Func); ok {
+					switch fn.Name() {
+					case "GetHeight":
+						return vint(h), true
+					case "GetWidth":
+						return vint(w), true
+					}
+				}
+				return nil, false
+			}}
+			fired, err := guardFires(c, fd, p, map[types.Object]*Val{paramObjs(p, fd)[0]: {K: VNil}}, hk, 0)
+			if err != "" {
+				bad = "?" + err
+				break
+			}
+			invalid := h < 21 || h%4 != 1 || w != h
+			if fired != invalid {
+				bad = fmt.Sprintf("a %dx%d (width x height) matrix: rejected=%v, but it is %s", w, h, fired, map[bool]string{true: "not a square of side 21+4k: indexing by the height in both directions leaves the matrix", false: "a valid symbol size"}[invalid])
+				break
+			}
+		}
+		if bad != "" {
+			break
+		}
+	}
+	reportFold(r, c, "M-SQUARE", key, fd.Pos(), bad)
+}
+
+// M-IDXPAIR: Codabar's character matcher certifies the index its caller reads next
+func checkCodabarIndexPair(c *Ctx, r *Report) {
+	r.Rule("M-IDXPAIR", "codabarReader.toNarrowWidePattern(position) returns -1 unless position+7 < counterLength, and DecodeRow, which advances its cursor by exactly 8 after each accepted character, reads counters only at cursor-8 .. cursor-1 afterwards: the matcher's guard is what keeps counters[cursor-1] (the gap after the last character) inside the slice", 2)
+	fd, p := c.funcDeclOf("oned", "codabarReader.toNarrowWidePattern")
+	key := "oned.codabarReader.toNarrowWidePattern"
+	if fd == nil {
+		r.AnchorLost("M-IDXPAIR", key, "method not found")
+	} else {
+		r.Analysed(key)
+		bad := ""
+		for n := int64(0); n <= 24 && bad == ""; n++ {
+			for pos := int64(0); pos <= 24 && bad == ""; pos++ {
+				rr := &rpf{c: c, p: p, env: map[types.Object]*Val{paramObjs(p, fd)[0]: vint(pos)}, selHook: func(rr *rpf, sel *ast.SelectorExpr) (*Val, bool) {
+					if sel.Sel.Name == "counterLength" {
+						return vint(n), true
+					}
+					return nil, false
+				}}
+				rejected := false
+				func() {
+					defer func() {
+						if y := recover(); y != nil {
+							if re, ok := y.(*rpfErr); ok {
+								bad = "?" + re.Error()
+								return
+							}
+							panic(y)
+						}
+					}()
+					for _, st := range fd.Body.List {
+						switch x := st.(type) {
+						case *ast.AssignStmt:
+							if x.Tok != token.DEFINE || !allIntRhs(p, x) {
+								return
+							}
+							rr.stmt(x)
+						case *ast.IfStmt:
+							if !terminates(x.Body.List) {
+								return
+							}
+							cv := rr.expr(x.Cond)
+							if cv.K == VBool && cv.B {
+								if rs, ok := x.Body.List[len(x.Body.List)-1].(*ast.ReturnStmt); ok && len(rs.Results) == 1 {
+									if v, isK := constInt(p, rs.Results[0]); isK && v == -1 {
+										rejected = true
+									}
+								}
+								return
+							}
+						default:
+							return
+						}
+					}
+				}()
+				if bad == "" && rejected != (pos+7 >= n) {
+					bad = fmt.Sprintf("position %d with %d counters: rejected=%v; the character's 7 elements and the gap after it end at index %d", pos, n, rejected, pos+7)
+				}
+			}
+		}
+		reportFold(r, c, "M-IDXPAIR", key, fd.Pos(), bad)
+	}
+	fd, p = c.funcDeclOf("oned", "codabarReader.DecodeRow")
+	key = "oned.codabarReader.DecodeRow"
+	if fd == nil {
+		r.AnchorLost("M-IDXPAIR", key, "method not found")
+		return
+	}
+	r.Analysed(key)
+	// the cursor: argument of toNarrowWidePattern
+	calls := findCalls(p, fd.Body, func(o types.Object) bool {
+		fn, ok := o.(*types.Func)
+		return ok && fn.Name() == "toNarrowWidePattern"
+	})
+	bad := ""
+	if len(calls) != 1 {
+		bad = "expected one toNarrowWidePattern call"
+	} else {
+		cur := identObj(p, calls[0].Args[0])
+		loop := (*ast.ForStmt)(nil)
+		gi, _ := guardsOf(fd.Body, enclosingStmt(fd.Body, calls[0]))
+		for _, e := range gi.Enclosing {
+			if l, ok := e.Node.(*ast.ForStmt); ok {
+				loop = l
+			}
+		}
+		if cur == nil || loop == nil {
+			bad = "cursor / character loop not found"
+		} else {
+			// in the loop: the -1 test exits, then the only assignment to the cursor is += 8
+			n := 0
+			ast.Inspect(loop.Body, func(nd ast.Node) bool {
+				if as, ok := nd.(*ast.AssignStmt); ok {
+					for i, l := range as.Lhs {
+						if identObj(p, l) == cur {
+							n++
+							if v, isK := constInt(p, as.Rhs[i]); as.Tok != token.ADD_ASSIGN || !isK || v != 8 {
+								bad = "the cursor must advance by exactly 8 counters per accepted character"
+							}
+							if as.Pos() < calls[0].Pos() {
+								bad = "the cursor moves before the character at it was matched"
+							}
+						}
+					}
+				}
+				if inc, ok := nd.(*ast.IncDecStmt); ok && identObj(p, inc.X) == cur {
+					bad = "the cursor must advance by exactly 8 counters per accepted character"
+				}
+				return true
+			})
+			if bad == "" && n != 1 {
+				bad = "the cursor must advance exactly once per accepted character"
+			}
+			// after the loop every counters[...] read through the cursor is cursor+k with -8 <= k <= -1
+			if bad == "" {
+				s := c.newSymExec(p)
+				s.onIndex = func(s *symExec, ix *ast.IndexExpr, base, index *Poly) {
+					if ix.Pos() < loop.End() || !strings.HasSuffix(base.String(), ",counters)") {
+						return
+					}
+					curVal := s.atomFor(cur)
+					d := index.sub(curVal)
+					// d is a constant or -8 + K with K < 7 (the pattern-size loop)
+					if cst, isC := d.isConst(); isC {
+						if !(cst.IsInt() && cst.Num().Int64() <= -1 && cst.Num().Int64() >= -8) {
+							bad = c.pos(ix.Pos()) + ": counters[cursor" + prettyPoly(d) + "] is outside the last character's span cursor-8 .. cursor-1"
+						}
+						return
+					}
+					ks := kAtomsOf(d)
+					if len(ks) == 1 && !usesCursor(index, curVal) {
+						return // an index not derived from the cursor (bounded by its own loop)
+					}
+					if len(ks) == 1 {
+						off := d.sub(polyAtom(ks[0]))
+						if cst, isC := off.isConst(); isC && cst.IsInt() && cst.Num().Int64() >= -8 {
+							// upper end: the loop condition bounds K
+							okUp := false
+							for _, cd := range s.conds {
+								if cd.op == token.LSS && !cd.neg {
+									if rc, isRC := cd.r.isConst(); isRC && rc.IsInt() && rc.Num().Int64() <= -1 {
+										okUp = true
+									}
+								}
+							}
+							if okUp {
+								return
+							}
+						}
+					}
+					bad = c.pos(ix.Pos()) + ": counters[" + prettyPoly(index) + "] cannot be shown to lie in cursor-8 .. cursor-1"
+				}
+				s.block(fd.Body.List)
+			}
+		}
+	}
+	reportFold(r, c, "M-IDXPAIR", key, fd.Pos(), bad)
+}
+
+func usesCursor(index, cur *Poly) bool {
+	return strings.Contains(index.String(), cur.String())
 }
